@@ -225,6 +225,23 @@ func (st *State) loadBytes(addr *smt.Term, n int) []*smt.Term {
 	}
 	// symbolic offset: ite chain over feasible offsets
 	cands := st.offsetCandidates(sym, o.size-n)
+	if n <= 8 && n > 1 {
+		// word-level chain (keeps loaded pointers recognisable as an ite of addresses)
+		var acc *smt.Term
+		for j := len(cands) - 1; j >= 0; j-- {
+			bs := make([]*smt.Term, n)
+			for i := 0; i < n; i++ {
+				bs[i] = st.byteAt(o, cands[j]+i)
+			}
+			w := st.bytesToTerm(bs)
+			if acc == nil {
+				acc = w
+			} else {
+				acc = st.c.Ite(st.c.Eq(sym, st.c.Const(uint64(cands[j]), 64)), w, acc)
+			}
+		}
+		return st.termToBytes(acc, n)
+	}
 	for i := 0; i < n; i++ {
 		var acc *smt.Term
 		for j := len(cands) - 1; j >= 0; j-- {
